@@ -54,7 +54,7 @@ theorem yearKind_reform_year (r : Int) (gap : ReformGap) (y : Int)
     (h : (Calendar.reforming r gap).yearKind y = .reformCommon
       ∨ (Calendar.reforming r gap).yearKind y = .reformLeap) :
     y = gap.postReform.year ∨ y = gap.preReform.year := by
-  simp only [Calendar.yearKind, ReformGap.cmpYear, cmpIntRange] at h
+  simp only [Calendar.yearKind, ReformGap.cmpYear, JV.cmpIntRange] at h
   by_cases h1 : y < gap.preReform.year
   · simp only [h1, if_true] at h
     rcases h with h | h <;> (split at h <;> cases h)
